@@ -73,6 +73,9 @@ func (e *Env) appendedID(mu *ssa.MapUpdate) ssa.Value {
 		if ia, ok := ref.(*ssa.IndexAddr); ok {
 			for _, r2 := range *ia.Referrers() {
 				if st, ok := r2.(*ssa.Store); ok {
+					if par, isP := ir.Resolve(st.Val).(*ssa.Parameter); isP && isIntType(par.Type()) {
+						return par // the id itself, handed to the writer
+					}
 					if fl.Any(st.Val) && len(fl.Sources) > 0 {
 						if ap, ok := e.C.PathOf(fl.Sources[0]); ok {
 							return ap.Root
@@ -83,6 +86,11 @@ func (e *Env) appendedID(mu *ssa.MapUpdate) ssa.Value {
 		}
 	}
 	return nil
+}
+
+func isIntType(t types.Type) bool {
+	b, ok := t.Underlying().(*types.Basic)
+	return ok && b.Info()&types.IsInteger != 0
 }
 
 func (e *Env) graphRoles() *GraphRoles {
@@ -165,6 +173,8 @@ func (e *Env) graphRoles() *GraphRoles {
 				u := EdgeUpdate{Site: mu, Field: mp.Fields[len(mp.Fields)-1]}
 				if kp, ok2 := e.C.PathOf(mu.Key); ok2 && kp.Suffix("id") {
 					u.Key = kp.Root
+				} else if kpar, isP := ir.Resolve(mu.Key).(*ssa.Parameter); isP && isIntType(kpar.Type()) {
+					u.Key = kpar // the writer is handed the ids themselves (`add(required.id, node.id)`)
 				}
 				u.App = e.appendedID(mu)
 				out = append(out, u)
@@ -277,7 +287,12 @@ func (e *Env) graphRoles() *GraphRoles {
 			if ir.Resolve(v) == ssa.Value(p) {
 				for _, c := range edgeCalls {
 					if i < len(c.Call.Args) {
-						out = append(out, c.Call.Args[i])
+						a := c.Call.Args[i]
+						// an id handed over: the node it is the id of
+						if ap, okp := e.C.PathOf(a); okp && ap.Suffix("id") && isIntType(p.Type()) {
+							a = ap.Root
+						}
+						out = append(out, a)
 					}
 				}
 			}
@@ -1211,6 +1226,24 @@ func (e *Env) existsPredicate(f *ssa.Function) (is, positive bool) {
 	if b, ok := f.Signature.Results().At(0).Type().Underlying().(*types.Basic); !ok || b.Kind() != types.Bool {
 		return false, false
 	}
+	// a forwarder on a path type (`func (f specFile) present() bool { return util.FileExists(string(f)) }`)
+	if len(f.Blocks) == 1 {
+		if rt, ok := f.Blocks[0].Instrs[len(f.Blocks[0].Instrs)-1].(*ssa.Return); ok && len(rt.Results) == 1 {
+			v, pol := ir.Resolve(rt.Results[0]), true
+			for {
+				if u, isU := v.(*ssa.UnOp); isU && u.Op == token.NOT {
+					v, pol = ir.Resolve(u.X), !pol
+					continue
+				}
+				break
+			}
+			if c, isC := v.(*ssa.Call); isC && c.Call.StaticCallee() != f && len(c.Call.Args) == 1 && e.pathBase(c.Call.Args[0]) == ssa.Value(f.Params[0]) {
+				if is, positive := e.existsPredicate(c.Call.StaticCallee()); is {
+					return true, positive == pol
+				}
+			}
+		}
+	}
 	stat := ir.CallsIn(f, func(c *ssa.CallCommon) bool { return ir.IsCallTo(c, "os.Stat", "os.Lstat") })
 	if len(stat) != 1 || ir.Resolve(stat[0].Common().Args[0]) != ssa.Value(f.Params[0]) {
 		return false, false
@@ -1237,6 +1270,49 @@ func (e *Env) existsPredicate(f *ssa.Function) (is, positive bool) {
 		}
 	}
 	return false, false
+}
+
+// pathBase: the value a file name is a spelling of - conversions between string types
+// and one-expression accessors of a path type (`func (f specFile) path() string { return
+// string(f) }`) are looked through.
+func (e *Env) pathBase(v ssa.Value) ssa.Value {
+	for d := 0; d < 6; d++ {
+		v = ir.Deep(v)
+		switch x := v.(type) {
+		case *ssa.Convert:
+			if isStringish(x.Type()) && isStringish(x.X.Type()) {
+				v = x.X
+				continue
+			}
+		case *ssa.ChangeType:
+			v = x.X
+			continue
+		case *ssa.Call:
+			g := x.Call.StaticCallee()
+			if g != nil && e.P.Funcs[g] && len(g.Blocks) == 1 && len(g.Params) == 1 && len(x.Call.Args) == 1 && len(g.Blocks[0].Instrs) <= 3 {
+				if rt, ok := g.Blocks[0].Instrs[len(g.Blocks[0].Instrs)-1].(*ssa.Return); ok && len(rt.Results) == 1 {
+					rv := ir.Resolve(rt.Results[0])
+					if cv, isCv := rv.(*ssa.Convert); isCv {
+						rv = ir.Resolve(cv.X)
+					}
+					if ct, isCt := rv.(*ssa.ChangeType); isCt {
+						rv = ir.Resolve(ct.X)
+					}
+					if rv == ssa.Value(g.Params[0]) && isStringish(g.Params[0].Type()) {
+						v = x.Call.Args[0]
+						continue
+					}
+				}
+			}
+		}
+		break
+	}
+	return v
+}
+
+func isStringish(t types.Type) bool {
+	b, ok := t.Underlying().(*types.Basic)
+	return ok && b.Info()&types.IsString != 0
 }
 
 // waysTo returns the ways control can reach an instruction, each as a
